@@ -300,6 +300,9 @@ class TimeDependentLinearPDE(LinearPDE):
         
         # squeeze if only one time observation
         if len(self._time_obs) == 1:
-            solution_obs = solution_obs.squeeze()
+            if np.ndim(solution_obs) == 2 and np.shape(solution_obs)[1] == 1:
+                solution_obs = solution_obs[:, 0] # drop the time axis only: a single observation point keeps its axis
+            else:
+                solution_obs = solution_obs.squeeze()
 
         return solution_obs
